@@ -381,7 +381,8 @@ OSS_RULE = ("A: every history of <= MaxLen calls on an operation schema and its 
             "Erase incl. non-leaves, ConnectNew = the environment creates a source and the pictogram is connected to it, Edit = the user "
             "changes the schema held by a source (base set added / removed, text only, a term added to a result), Save = the source "
             "manager announces the pending change, InitFor merge / synthesis with and without equation table, Execute, ExecuteAll, "
-            "Lock = the environment makes a result source read-only), from "
+            "Lock = the environment makes a result source read-only, Close / Open = the source manager closes (announcing first) and re-opens a source, "
+            "Drop = the environment closes a source WITHOUT announcing its pending change, Edit userPair = two user additions the first of which mentions the second), from "
             "the presets 'empty', 'chain' (l2 = op(op(b1,b2), b3)), 'diamond' (top = op(op(b1,b2), op(b2,b3))), 'synt' (equation table, "
             "grandchild over a shared base), 'stale' (chain with an outdated l2 whose source is read-only), 'grid' (layout only: insert, erase, "
             "ShiftPict, LoadPosition); generated by TLC from OSS.tla with the predicted pictograms, parents, statuses, flags and "
